@@ -1,4 +1,6 @@
 import BoboVerif.Model.Frame
+set_option linter.unusedSimpArgs false
+set_option linter.unusedVariables false
 /-! helper lemmas for M-Frame (used by Props/C10.lean and Props/C11.lean). -/
 namespace Bobo.Frame
 
@@ -52,5 +54,427 @@ theorem recv_chunk_le {n : Nat} {script s' : List RecvResult} {p : Bytes}
       simp [List.length_take]; omega
   | .eof :: rest => simp [recv] at h
   | .silent :: rest => simp [recv] at h
+
+
+/-! ### the receive loop -/
+
+
+/-- `m` is recognised as a complete message. -/
+def Framed (cfg : Cfg) (m : Bytes) : Prop := endTest cfg m [] = true
+/-- no proper prefix of `m` is recognised as a complete message. -/
+def NoEarlyFrame (cfg : Cfg) (m : Bytes) : Prop := ∀ k, k < m.length → endTest cfg (m.take k) [] = false
+
+def NonEmptyChunks (script : List RecvResult) : Prop := ∀ r ∈ script, ∃ bs, r = .chunk bs ∧ bs ≠ []
+
+theorem recvLoop_nil (cfg : Cfg) (a : Int) (s : List RecvResult) (acc : Bytes) (k : Nat) :
+    recvLoop cfg a [] s acc k = ⟨.clockOut, k⟩ := by simp [recvLoop, recvLoopG, sockTimeout]
+
+theorem prefix_not_framed {cfg : Cfg} {m : Bytes} (hNE : NoEarlyFrame cfg m) {a r x : Bytes}
+    (h : a ++ r = m) (hr : r ≠ []) : endTest cfg a x = false := by
+  have hl : a.length < m.length := by
+    rw [← h, List.length_append]; have := List.length_pos_iff.mpr hr; omega
+  have := hNE a.length hl
+  rw [← h, List.take_left'] at this
+  · exact this
+  · rfl
+
+theorem loop_delivers (cfg : Cfg) (hn : 0 < cfg.recvBytes) (m : Bytes) (hF : Framed cfg m) (hNE : NoEarlyFrame cfg m)
+    (accepted : Int) :
+    ∀ (clock : List Int) (script : List RecvResult) (acc : Bytes) (k : Nat),
+      NonEmptyChunks script → flat script ≠ [] → acc ++ flat script = m →
+      (∀ t ∈ clock, t - accepted < cfg.timeout) → (flat script).length ≤ clock.length →
+      (recvLoop cfg accepted clock script acc k).out = .frame m := by
+  intro clock
+  induction clock with
+  | nil =>
+    intro script acc k _ hne _ _ hlen
+    exact absurd (List.eq_nil_of_length_eq_zero (Nat.le_zero.mp hlen)) hne
+  | cons now rest ih =>
+    intro script acc k hch hne hm hclk hlen
+    have hnow : elapsedTest cfg now accepted = false := by
+      have := hclk now (by simp); simp [elapsedTest]; omega
+    have hrest : ∀ t ∈ rest, t - accepted < cfg.timeout := fun t ht => hclk t (by simp [ht])
+    match script, hch, hne, hm, hlen with
+    | [], _, hne, _, _ => exact absurd rfl hne
+    | r :: script0, hch, hne, hm, hlen =>
+      obtain ⟨bs, rfl, hbs⟩ := hch r (by simp)
+      have hch0 : NonEmptyChunks script0 := fun r hr => hch r (by simp [hr])
+      simp only [flat] at hm hlen
+      have hbl := List.length_pos_iff.mpr hbs
+      simp only [recvLoop, recvLoopG, sockTimeout, hnow, recv, Bool.false_eq_true, if_false]
+      by_cases hsmall : bs.length ≤ cfg.recvBytes
+      · simp only [hsmall, if_true]
+        by_cases h0 : flat script0 = []
+        · have : acc ++ bs = m := by simpa [h0] using hm
+          have hF' : endTest cfg (acc ++ bs) bs = true := by rw [this]; exact hF
+          rw [if_pos hF', this]
+        · have : endTest cfg (acc ++ bs) bs = false :=
+            prefix_not_framed hNE (by simpa using hm) h0
+          simp only [this, Bool.false_eq_true, if_false]
+          exact ih script0 (acc ++ bs) (k + 1) hch0 h0 (by simpa using hm) hrest
+            (by simp [List.length_append] at hlen; omega)
+      · simp only [hsmall, if_false]
+        have hd : bs.drop cfg.recvBytes ≠ [] := by
+          intro h; have := congrArg List.length h; simp at this; omega
+        have ht : (bs.take cfg.recvBytes).length = cfg.recvBytes := by simp; omega
+        have hm' : (acc ++ bs.take cfg.recvBytes) ++ (bs.drop cfg.recvBytes ++ flat script0) = m := by
+          rw [← hm, List.append_assoc acc, ← List.append_assoc (bs.take _), List.take_append_drop]
+        have : endTest cfg (acc ++ bs.take cfg.recvBytes) (bs.take cfg.recvBytes) = false :=
+          prefix_not_framed hNE hm' (by simp [hd])
+        simp only [this, Bool.false_eq_true, if_false]
+        refine ih (.chunk (bs.drop cfg.recvBytes) :: script0) _ (k + 1) ?_ ?_ ?_ hrest ?_
+        · intro r hr
+          rcases List.mem_cons.mp hr with h | h
+          · exact ⟨_, h, hd⟩
+          · exact hch0 r h
+        · simp [flat, hd]
+        · simpa [flat] using hm'
+        · simp [flat, List.length_append] at hlen ⊢; omega
+
+
+
+/-- pieces of at most `recv_bytes` bytes: one read each; the whole result. -/
+theorem loop_delivers_small (cfg : Cfg) (m : Bytes) (hF : Framed cfg m) (hNE : NoEarlyFrame cfg m)
+    (accepted : Int) :
+    ∀ (clock : List Int) (cs : List Bytes) (acc : Bytes) (k : Nat),
+      (∀ c ∈ cs, c ≠ [] ∧ c.length ≤ cfg.recvBytes) → cs.flatten ≠ [] → acc ++ cs.flatten = m →
+      (∀ t ∈ clock, t - accepted < cfg.timeout) → cs.length ≤ clock.length →
+      recvLoop cfg accepted clock (cs.map .chunk) acc k = ⟨.frame m, k + cs.length⟩ := by
+  intro clock
+  induction clock with
+  | nil =>
+    intro cs acc k _ hne _ _ hlen
+    have : cs = [] := List.eq_nil_of_length_eq_zero (Nat.le_zero.mp hlen)
+    subst this; simp at hne
+  | cons now rest ih =>
+    intro cs acc k hcs hne hm hclk hlen
+    have hnow : elapsedTest cfg now accepted = false := by
+      have := hclk now (by simp); simp [elapsedTest]; omega
+    have hrest : ∀ t ∈ rest, t - accepted < cfg.timeout := fun t ht => hclk t (by simp [ht])
+    match cs, hcs, hne, hm, hlen with
+    | [], _, hne, _, _ => simp at hne
+    | c :: cs0, hcs, hne, hm, hlen =>
+      obtain ⟨hc, hsmall⟩ := hcs c (by simp)
+      have hcs0 : ∀ c ∈ cs0, c ≠ [] ∧ c.length ≤ cfg.recvBytes := fun x hx => hcs x (by simp [hx])
+      simp only [List.flatten_cons] at hm
+      simp only [List.map_cons, recvLoop, recvLoopG, hnow, recv, hsmall, if_true, Bool.false_eq_true, if_false]
+      by_cases h0 : cs0.flatten = []
+      · have hcs0nil : cs0 = [] := by
+          match cs0, hcs0, h0 with
+          | [], _, _ => rfl
+          | d :: ds, hd, h0 =>
+            have := (hd d (by simp)).1
+            simp at h0; exact absurd h0.1 this
+        have : acc ++ c = m := by simpa [h0] using hm
+        have hF' : endTest cfg (acc ++ c) c = true := by rw [this]; exact hF
+        rw [if_pos hF', this, hcs0nil]; simp
+      · have : endTest cfg (acc ++ c) c = false := prefix_not_framed hNE (by simpa using hm) h0
+        simp only [this, Bool.false_eq_true, if_false]
+        have := ih cs0 (acc ++ c) (k + 1) hcs0 h0 (by simpa using hm) hrest (by simp at hlen; omega)
+        simp only [recvLoop] at this
+        rw [this]; simp; omega
+
+instance (cfg : Cfg) (m : Bytes) : Decidable (Framed cfg m) := by unfold Framed; exact inferInstance
+instance (cfg : Cfg) (m : Bytes) : Decidable (NoEarlyFrame cfg m) := by unfold NoEarlyFrame; exact inferInstance
+
+/-- a stream that carries only a proper prefix of `m` never yields a frame, whatever else happens. -/
+theorem loop_never_delivers (cfg : Cfg) (m : Bytes) (hNE : NoEarlyFrame cfg m) (accepted : Int) :
+    ∀ (clock : List Int) (script : List RecvResult) (acc : Bytes) (k : Nat),
+      (∃ r, r ≠ [] ∧ acc ++ flat script ++ r = m) →
+      ∀ all, (recvLoop cfg accepted clock script acc k).out ≠ .frame all := by
+  intro clock
+  induction clock with
+  | nil => intro script acc k _ all; simp [recvLoop, recvLoopG, sockTimeout]
+  | cons now rest ih =>
+    intro script acc k ⟨r, hr, hm⟩ all
+    simp only [recvLoop, recvLoopG, sockTimeout]
+    split
+    · simp
+    · split
+      · simp
+      · next s' hrecv =>
+        have hfl := recv_eof hrecv
+        have : endTest cfg acc [] = false :=
+          prefix_not_framed hNE (r := flat script ++ r) (by simpa using hm) (by simp [hr])
+        simp only [this, Bool.false_eq_true, if_false]
+        exact ih s' acc (k + 1) ⟨r, hr, by rw [hfl]; exact hm⟩ all
+      · next bs s' hrecv =>
+        have hfl := recv_chunk hrecv
+        have hm' : (acc ++ bs) ++ (flat s' ++ r) = m := by
+          rw [← hm, ← hfl]; simp
+        have : endTest cfg (acc ++ bs) bs = false := prefix_not_framed hNE hm' (by simp [hr])
+        simp only [this, Bool.false_eq_true, if_false]
+        exact ih s' (acc ++ bs) (k + 1) ⟨r, hr, by simpa using hm'⟩ all
+
+/-- whatever the peer does, the loop is over at the first clock reading at or past the timeout:
+it has a frame, or it raised the timeout error no later than that reading / one socket timeout after an earlier one. -/
+theorem loop_ends (cfg : Cfg) (accepted t : Int) (post : List Int) (ht : t - accepted ≥ cfg.timeout) :
+    ∀ (pre : List Int) (script : List RecvResult) (acc : Bytes) (k : Nat),
+      (∀ u ∈ pre, u - accepted < cfg.timeout) →
+      (∃ all, (recvLoop cfg accepted (pre ++ t :: post) script acc k).out = .frame all) ∨
+      (∃ g, (recvLoop cfg accepted (pre ++ t :: post) script acc k).out = .timeout g ∧
+            (g = t ∨ ∃ u ∈ pre, g = u + cfg.timeout)) := by
+  intro pre
+  induction pre with
+  | nil =>
+    intro script acc k _
+    right; refine ⟨t, ?_, Or.inl rfl⟩
+    have : elapsedTest cfg t accepted = true := by simp [elapsedTest]; omega
+    simp [recvLoop, recvLoopG, sockTimeout, this]
+  | cons now rest ih =>
+    intro script acc k hpre
+    have hnow : elapsedTest cfg now accepted = false := by
+      have := hpre now (by simp); simp [elapsedTest]; omega
+    have hrest : ∀ u ∈ rest, u - accepted < cfg.timeout := fun u hu => hpre u (by simp [hu])
+    have lift : ∀ s a k', ((∃ all, (recvLoop cfg accepted (rest ++ t :: post) s a k').out = .frame all) ∨
+        (∃ g, (recvLoop cfg accepted (rest ++ t :: post) s a k').out = .timeout g ∧
+            (g = t ∨ ∃ u ∈ rest, g = u + cfg.timeout))) →
+        ((∃ all, (recvLoop cfg accepted (rest ++ t :: post) s a k').out = .frame all) ∨
+        (∃ g, (recvLoop cfg accepted (rest ++ t :: post) s a k').out = .timeout g ∧
+            (g = t ∨ ∃ u ∈ now :: rest, g = u + cfg.timeout))) := by
+      intro s a k' h
+      rcases h with h | ⟨g, hg, hg'⟩
+      · exact Or.inl h
+      · refine Or.inr ⟨g, hg, ?_⟩
+        rcases hg' with h | ⟨u, hu, h⟩
+        · exact Or.inl h
+        · exact Or.inr ⟨u, by simp [hu], h⟩
+    simp only [List.cons_append, recvLoop, recvLoopG, sockTimeout, hnow, Bool.false_eq_true, if_false]
+    split
+    · right; exact ⟨now + cfg.timeout, by simp, Or.inr ⟨now, by simp, rfl⟩⟩
+    · split
+      · left; exact ⟨_, rfl⟩
+      · exact lift _ _ _ (ih _ _ _ hrest)
+    · split
+      · left; exact ⟨_, rfl⟩
+      · exact lift _ _ _ (ih _ _ _ hrest)
+
+/-- consecutive clock readings are at most `T` apart (every `recv` returns within the socket timeout). -/
+def StepsBounded (T : Int) : Int → List Int → Prop
+  | _, [] => True
+  | prev, t :: ts => t - prev ≤ T ∧ StepsBounded T t ts
+
+instance (T : Int) : ∀ (prev : Int) (ts : List Int), Decidable (StepsBounded T prev ts)
+  | _, [] => isTrue trivial
+  | prev, t :: ts =>
+    have := instDecidableStepsBounded T t ts
+    by unfold StepsBounded; exact inferInstance
+
+theorem loop_bounded (cfg : Cfg) (hT : 0 < cfg.timeout) (accepted : Int) :
+    ∀ (clock : List Int) (prev : Int) (script : List RecvResult) (acc : Bytes) (k : Nat) (g : Int),
+      prev - accepted < cfg.timeout → StepsBounded cfg.timeout prev clock →
+      (recvLoop cfg accepted clock script acc k).out = .timeout g → g - accepted < 2 * cfg.timeout := by
+  intro clock
+  induction clock with
+  | nil => intro prev script acc k g _ _ h; simp [recvLoop, recvLoopG, sockTimeout] at h
+  | cons now rest ih =>
+    intro prev script acc k g hprev hsb h
+    obtain ⟨hstep, hsb'⟩ := hsb
+    simp only [recvLoop, recvLoopG, sockTimeout] at h
+    split at h
+    · simp at h; omega
+    · next hnow =>
+      have hnow' : now - accepted < cfg.timeout := by simp [elapsedTest] at hnow; omega
+      split at h
+      · simp at h; omega
+      · split at h
+        · simp at h
+        · exact ih now _ _ _ g hnow' hsb' h
+      · split at h
+        · simp at h
+        · exact ih now _ _ _ g hnow' hsb' h
+
+
+
+/-! ### the check / write sequence -/
+
+
+theorem steps_reject_unchanged (ops : Ops) (cfg : Cfg) (all : Bytes) (addr : String) (st st' : St) (e : Exc)
+    (h : runSteps ops cfg all addr steps {} st = (some e, st')) : st' = st := by
+  simp only [steps, runSteps, stepSem] at h
+  cases h1 : ops.decrypt all with
+  | none => simp [h1] at h; exact h.2.symm
+  | some pt =>
+    simp only [h1] at h
+    cases h2 : splitPlain pt with
+    | error e2 => simp [h2] at h; exact h.2.symm
+    | ok f =>
+      simp only [h2] at h
+      cases h3 : findPeer f.urn st.peers with
+      | none => simp [h3] at h; exact h.2.symm
+      | some p =>
+        simp only [h3] at h
+        by_cases hk : f.key = p.key
+        · simp only [hk, ne_eq, not_true_eq_false, if_false] at h
+          by_cases hs : isSync f.type = true
+          · simp only [hs, if_true] at h
+            cases h4 : ops.parse f.json with
+            | some e4 => simp [h4] at h; exact h.2.symm
+            | none =>
+              simp only [h4, hs, if_true] at h
+              by_cases hq : queueFull cfg st.queue = true
+              · simp [hq] at h; exact h.2.symm
+              · simp only [hq, Bool.false_eq_true, if_false, hs, if_true, h3] at h
+                by_cases ha : addr = p.addr <;> by_cases hr : resetFlag f.flags = true <;> simp [ha, hr] at h
+          · simp only [hs, Bool.false_eq_true, if_false, h3] at h
+            by_cases ha : addr = p.addr <;> by_cases hr : resetFlag f.flags = true <;> simp [ha, hr] at h
+        · simp [hk] at h; exact h.2.symm
+
+
+/-- what identifies and authenticates the peers: never written by the handler. -/
+def keys (st : St) : List (String × String) := st.peers.map (fun p => (p.urn, p.key))
+
+/-- the device key on record for `urn`. -/
+def keyOf (urn : String) (ps : List Peer) : Option String := (findPeer urn ps).map (·.key)
+
+theorem keyOf_of_keys : ∀ (ps qs : List Peer), ps.map (fun p => (p.urn, p.key)) = qs.map (fun p => (p.urn, p.key)) →
+    ∀ u, keyOf u ps = keyOf u qs := by
+  intro ps
+  induction ps with
+  | nil => intro qs h u; cases qs with
+    | nil => rfl
+    | cons q qs => simp at h
+  | cons p ps ih =>
+    intro qs h u
+    cases qs with
+    | nil => simp at h
+    | cons q qs =>
+      simp only [List.map_cons, List.cons.injEq, Prod.mk.injEq] at h
+      obtain ⟨⟨hu, hk⟩, ht⟩ := h
+      have := ih qs ht u
+      unfold keyOf at *
+      simp only [findPeer, hu]
+      split
+      · simp [hk]
+      · exact this
+
+theorem updPeer_keys (u : String) (f : Peer → Peer) (hf : ∀ p, (f p).urn = p.urn ∧ (f p).key = p.key) :
+    ∀ ps : List Peer, (updPeer u f ps).map (fun p => (p.urn, p.key)) = ps.map (fun p => (p.urn, p.key)) := by
+  intro ps
+  induction ps with
+  | nil => rfl
+  | cons p ps ih =>
+    simp only [updPeer]
+    split
+    · simp [hf p]
+    · simp [ih]
+
+theorem stepSem_keys (ops : Ops) (cfg : Cfg) (all : Bytes) (addr : String) (s : Step) (l : Locals) (st : St) :
+    keys (stepSem ops cfg all addr s l st).2 = keys st := by
+  cases s <;> simp only [stepSem] <;> (repeat' split) <;> first
+    | rfl
+    | (simp only [keys]; apply updPeer_keys; intro p; exact ⟨rfl, rfl⟩)
+
+theorem runSteps_keys (ops : Ops) (cfg : Cfg) (all : Bytes) (addr : String) :
+    ∀ (ss : List Step) (l : Locals) (st : St), keys (runSteps ops cfg all addr ss l st).2 = keys st := by
+  intro ss
+  induction ss with
+  | nil => intro l st; rfl
+  | cons s ss ih =>
+    intro l st
+    simp only [runSteps]
+    have hk := stepSem_keys ops cfg all addr s l st
+    split
+    · next e st' heq => rw [heq] at hk; exact hk
+    · next l' st' heq => rw [heq] at hk; rw [ih l' st']; exact hk
+
+theorem splitPlain_error (pt : String) (e : Exc) (h : splitPlain pt = .error e) : e = .distErr ∨ e = .valueErr := by
+  unfold splitPlain at h
+  repeat' split at h
+  all_goals simp_all
+
+/-- every exception a statement can raise is an `Exception` (given that the payload parser raises only those). -/
+theorem stepSem_error_class (ops : Ops) (hparse : ∀ j e, ops.parse j = some e → e ≠ .baseExc)
+    (cfg : Cfg) (all : Bytes) (addr : String) (s : Step) (l : Locals) (st st' : St) (e : Exc)
+    (h : stepSem ops cfg all addr s l st = (.error e, st')) : e ≠ .baseExc := by
+  cases s <;> simp only [stepSem] at h <;> (repeat' split at h) <;> simp_all
+  all_goals first
+    | (obtain ⟨rfl, _⟩ := h; decide)
+    | (rcases splitPlain_error _ _ ‹_› with rfl | rfl <;> decide)
+    | (exact hparse _ _ ‹_›)
+
+
+theorem runSteps_error_class (ops : Ops) (hparse : ∀ j e, ops.parse j = some e → e ≠ .baseExc)
+    (cfg : Cfg) (all : Bytes) (addr : String) :
+    ∀ (ss : List Step) (l : Locals) (st st' : St) (e : Exc),
+      runSteps ops cfg all addr ss l st = (some e, st') → e ≠ .baseExc := by
+  intro ss
+  induction ss with
+  | nil => intro l st st' e h; simp [runSteps] at h
+  | cons s ss ih =>
+    intro l st st' e h
+    simp only [runSteps] at h
+    split at h
+    · next e1 st1 heq =>
+      simp only [Prod.mk.injEq, Option.some.injEq] at h
+      obtain ⟨rfl, _⟩ := h
+      exact stepSem_error_class ops hparse cfg all addr s l st st1 e1 heq
+    · next l1 st1 heq => exact ih l1 st1 st' e h
+
+/-- what an accepted frame has passed. -/
+theorem steps_accept_authentic (ops : Ops) (cfg : Cfg) (all : Bytes) (addr : String) (st st' : St)
+    (h : runSteps ops cfg all addr steps {} st = (none, st')) :
+    ∃ pt f p, ops.decrypt all = some pt ∧ splitPlain pt = .ok f ∧ findPeer f.urn st.peers = some p ∧
+      f.key = p.key ∧ (isSync f.type = true → ops.parse f.json = none ∧ queueFull cfg st.queue = false) := by
+  simp only [steps, runSteps, stepSem] at h
+  cases h1 : ops.decrypt all with
+  | none => simp [h1] at h
+  | some pt =>
+    simp only [h1] at h
+    cases h2 : splitPlain pt with
+    | error e2 => simp [h2] at h
+    | ok f =>
+      simp only [h2] at h
+      cases h3 : findPeer f.urn st.peers with
+      | none => simp [h3] at h
+      | some p =>
+        simp only [h3] at h
+        by_cases hk : f.key = p.key
+        · refine ⟨pt, f, p, rfl, h2, h3, hk, ?_⟩
+          intro hs
+          simp only [hk, ne_eq, not_true_eq_false, if_false, hs, if_true] at h
+          cases h4 : ops.parse f.json with
+          | some e4 => simp [h4] at h
+          | none =>
+            simp only [h4, hs, if_true] at h
+            by_cases hq : queueFull cfg st.queue = true
+            · simp [hq] at h
+            · exact ⟨rfl, by simpa using hq⟩
+        · simp [hk] at h
+
+/-- and conversely: a frame that passes all of it is accepted. -/
+theorem steps_valid_accepted (ops : Ops) (cfg : Cfg) (all : Bytes) (addr : String) (st : St)
+    (pt : String) (f : Fields) (p : Peer)
+    (h1 : ops.decrypt all = some pt) (h2 : splitPlain pt = .ok f) (h3 : findPeer f.urn st.peers = some p)
+    (hk : f.key = p.key) (hs : isSync f.type = true → ops.parse f.json = none ∧ queueFull cfg st.queue = false) :
+    (runSteps ops cfg all addr steps {} st).1 = none := by
+  simp only [steps, runSteps, stepSem, h1, h2, h3, hk, ne_eq, not_true_eq_false, if_false]
+  by_cases hsy : isSync f.type = true
+  · obtain ⟨h4, hq⟩ := hs hsy
+    simp only [hsy, if_true, h4, hq, Bool.false_eq_true, if_false, h3]
+    by_cases ha : addr = p.addr <;> by_cases hr : resetFlag f.flags = true <;> simp [ha, hr]
+  · simp only [hsy, Bool.false_eq_true, if_false, h3]
+    by_cases ha : addr = p.addr <;> by_cases hr : resetFlag f.flags = true <;> simp [ha, hr]
+
+/-- the first clock reading at or past the timeout. -/
+theorem first_reach (T accepted : Int) : ∀ (clock : List Int), (∃ t ∈ clock, t - accepted ≥ T) →
+    ∃ pre t post, clock = pre ++ t :: post ∧ (∀ u ∈ pre, u - accepted < T) ∧ t - accepted ≥ T := by
+  intro clock
+  induction clock with
+  | nil => intro ⟨t, ht, _⟩; simp at ht
+  | cons c cs ih =>
+    intro ⟨t, ht, hge⟩
+    by_cases hc : c - accepted ≥ T
+    · exact ⟨[], c, cs, rfl, by simp, hc⟩
+    · have : ∃ t ∈ cs, t - accepted ≥ T := by
+        rcases List.mem_cons.mp ht with rfl | h
+        · exact absurd hge hc
+        · exact ⟨t, h, hge⟩
+      obtain ⟨pre, t', post, rfl, hpre, ht'⟩ := ih this
+      refine ⟨c :: pre, t', post, rfl, ?_, ht'⟩
+      intro u hu
+      rcases List.mem_cons.mp hu with rfl | h
+      · omega
+      · exact hpre u h
 
 end Bobo.Frame
